@@ -1,0 +1,9 @@
+//go:build verif
+
+// Contracts for the acv verifier (/verif). Comment-only file: no executable code.
+
+package sqltypes
+
+//@ func ValueBindVariable(v Value) (bv *querypb.BindVariable)
+//@   props C16
+//@   ensures bv != nil
